@@ -5,6 +5,7 @@ CONSTANTS
   X0 <- X0_3
   B = {"b1", "b2"}
   Owner <- Owner_3
+  Vias = {"lookup"}
   MaxOps = 12
 INVARIANT Emit
 CHECK_DEADLOCK FALSE
